@@ -58,6 +58,7 @@ type cIn struct {
 	tRet       time.Duration
 	fromLoader bool // cGet miss that stands for "Take called its loader"
 	raceSet    bool // cDel whose call interval overlaps a Set of the same key by another client
+	raceKeys   uint32 // cSet: keys (bit key%32) of which another client's Set overlaps this call (it may evict them mid-Set)
 	// cSet issued while the timer of an earlier store of the same key may have been firing
 	// (markMayLoseTimer): the expiry task of that earlier entry may remove this store's timer
 	mayLoseTimer bool
@@ -139,6 +140,9 @@ type cacheModel struct {
 	//       e.g. two SetWithExpire on an existing key with (jittered) expiries below the wheel's
 	//       1 s tick, each of which makes TimingWheel.moveTask run the expiry at once and
 	//       asynchronously (delay < interval => GoSafe(execute))
+	//  5: + an LRU eviction caused by a store that overlaps another client's Set of the evicted key
+	//       (data stored under the lock, SetTimer sent afterwards) removes the data and sends
+	//       RemoveTimer before that Set's SetTimer arrives: the same orphan timer as level 3
 	relaxed int
 	// upper: an operation invoked after an entry's latest possible expiry (cEntry.dead) must not
 	// find it any more (single-client histories only; class cache-entry-outlives-expiry)
@@ -273,6 +277,9 @@ func (m *cacheModel) step(st cState, in cIn, out cOut) []cState {
 					for _, ev := range n[m.limit:] {
 						// evicted when its timer may already have fired: same in-flight expiry task
 						if m.relaxed >= 2 && (ev.racy || in.tRet-ev.setAt >= ev.life) {
+							g |= uint32(1) << uint(ev.key%32)
+						}
+						if m.relaxed >= 5 && in.raceKeys&(uint32(1)<<uint(ev.key%32)) != 0 {
 							g |= uint32(1) << uint(ev.key%32)
 						}
 					}
